@@ -3,6 +3,7 @@ package props
 import (
 	"fmt"
 	"go/token"
+	"go/types"
 	"os"
 	"sort"
 	"strings"
@@ -56,6 +57,113 @@ func checkC12(r *core.Run) {
 	c12Owner(r, p)
 	c12Sort(r, p)
 	c12Admit(r, p)
+	c12Closure(r, p)
+}
+
+// c12Closure: GetAllChildren is a worklist traversal; it is complete only if the walk ends when the cursor
+// has reached the end of the list of found descendants, the next node expanded is the one under the
+// cursor, the cursor advances by one, and every child not yet seen is appended.
+func c12Closure(r *core.Run, p *core.Program) {
+	const rule = "R-C12-admit"
+	fn := p.Func("client/txpool.(*OneTxToSend).GetAllChildren")
+	if fn == nil {
+		r.Fail(rule, "descendants", "-", "GetAllChildren not found")
+		return
+	}
+	var ret *ssa.Return
+	for _, b := range fn.Blocks {
+		if x, ok := b.Instrs[len(b.Instrs)-1].(*ssa.Return); ok {
+			if ret != nil {
+				r.Fail(rule, "descendants", p.Pos(fn.Pos()), "more than one way out of the descendant walk")
+				return
+			}
+			ret = x
+		}
+	}
+	if ret == nil || len(ret.Results) != 1 {
+		r.Fail(rule, "descendants", p.Pos(fn.Pos()), "no result")
+		return
+	}
+	res := an.Expr(ret.Results[0])
+	// the exit test
+	var cursor ssa.Value
+	for _, dc := range an.DomConds(ret.Block()) {
+		bo, ok := dc.If.Cond.(*ssa.BinOp)
+		if !ok || !dc.True || bo.Op != token.EQL {
+			continue
+		}
+		if an.Expr(bo.Y) == "builtin.len("+res+")" {
+			cursor = bo.X
+		} else if an.Expr(bo.X) == "builtin.len("+res+")" {
+			cursor = bo.Y
+		}
+	}
+	if cursor == nil {
+		r.Fail(rule, "descendants/exit", p.Pos(ret.Pos()), "the walk does not end on 'cursor == number of descendants found': it can stop while found descendants are still unexpanded")
+		return
+	}
+	cur := an.Expr(cursor)
+	var probs []string
+	for _, leaf := range an.PhiLeaves(cursor) {
+		e := an.Expr(leaf)
+		if e != "0" && e != "("+cur+" + 1)" {
+			probs = append(probs, "the cursor takes the value "+e)
+		}
+	}
+	// the node expanded
+	exp := an.CallsTo(fn, false, "(*client/txpool.OneTxToSend).GetChildren")
+	if len(exp) != 1 {
+		probs = append(probs, fmt.Sprintf("%d expansions per step", len(exp)))
+	} else {
+		var leaves []string
+		for _, leaf := range an.PhiLeaves(exp[0].Common().Args[0]) {
+			leaves = append(leaves, an.Expr(leaf))
+		}
+		sort.Strings(leaves)
+		if strings.Join(leaves, " | ") != "param#0 | "+res+"["+cur+"]" {
+			probs = append(probs, "the node expanded is one of ["+strings.Join(leaves, " | ")+"], expected the transaction itself and then the descendant under the cursor")
+		}
+		// every unseen child is appended
+		kids := an.Expr(exp[0].(ssa.Value))
+		okApp := false
+		for _, c := range an.CallsTo(fn, false, "builtin.append") {
+			if an.Expr(c.Common().Args[0]) != res {
+				continue
+			}
+			sl, ok := c.Common().Args[1].(*ssa.Slice)
+			if !ok {
+				continue
+			}
+			al, ok := sl.X.(*ssa.Alloc)
+			if !ok {
+				continue
+			}
+			for _, ref := range *al.Referrers() {
+				if ia, ok := ref.(*ssa.IndexAddr); ok {
+					for _, rr := range *ia.Referrers() {
+						if st, ok := rr.(*ssa.Store); ok && strings.HasPrefix(an.Expr(st.Val), kids+"[") {
+							// under "not seen before" only
+							cs := an.DomConds(c.(ssa.Instruction).Block())
+							n := 0
+							for _, dc := range cs {
+								if strings.Contains(dc.Cond, kids) && strings.HasSuffix(dc.Cond, "#1") && !dc.True {
+									n++
+								}
+							}
+							if n == 1 {
+								okApp = true
+							}
+						}
+					}
+				}
+			}
+		}
+		if !okApp {
+			probs = append(probs, "a child that was not seen before is not appended to the list of descendants")
+		}
+	}
+	sort.Strings(probs)
+	r.Check(len(probs) == 0, rule, "descendants", p.Pos(fn.Pos()), "worklist: expand tx, then result[cursor]; cursor 0,+1; stop at cursor == len(result); unseen children appended", strings.Join(probs, "; "))
 }
 
 func c12Lock(r *core.Run, p *core.Program) {
@@ -698,6 +806,71 @@ func c12Admit(r *core.Run, p *core.Program) {
 		}
 	}
 	r.Check(okConf && okRepl, rule, "conflicts-replaced-first", p.Pos(pt.Pos()), "the spent-outputs map is consulted for every input and all conflicting transactions are deleted before the new one is added", "conflicting pooled transactions are not all removed before the new transaction is added (two pooled transactions could spend one output)")
+	// a replacement does not spend what it replaces: a refusal controlled by "the pooled parent of an input is
+	// in the set of transactions to be replaced", decided before anything is deleted
+	okSelf := false
+	for _, rets := range rejects {
+		for _, ret := range rets {
+			for _, cc := range controlConds(ret.Block()) {
+				lk, ok := cc.If.Cond.(*ssa.Lookup)
+				if !ok || !cc.Truth {
+					continue
+				}
+				mt, ok := lk.X.Type().Underlying().(*types.Map)
+				if !ok || !strings.HasSuffix(mt.Key().String(), "txpool.OneTxToSend") {
+					continue
+				}
+				ka := an.Atoms(lk.Index)
+				if !(ka["global:client/txpool.TransactionsToSend"] && ka["field:lib/btc.TxPrevOut.Hash"]) {
+					continue
+				}
+				// the test sits in a loop over all inputs; the loop may be skipped only when there is nothing to
+				// replace or no input comes from the pool; and it cannot run after an eviction
+				dcs := an.DomConds(cc.If.Block())
+				skipOK := map[string]bool{"(" + an.Expr(lk.X) + " != nil)": true}
+				for _, dc := range dcs {
+					if dc.True && strings.HasSuffix(dc.Cond, "]") && strings.Contains(dc.Cond, "[") {
+						skipOK["("+dc.Cond[:strings.LastIndex(dc.Cond, "[")]+" != nil)"] = true // the per-input "from the pool" flags
+					}
+				}
+				for k, dc := range dcs {
+					if !dc.True || !strings.Contains(dc.Cond, " < builtin.len(") || !strings.HasSuffix(dc.Cond, ".TxIn))") {
+						continue
+					}
+					okSkip := true
+					for _, outer := range dcs[k+1:] {
+						if outer.If.Block().Dominates(addCall.Block()) && (outer.If.Block().Succs[0].Dominates(addCall.Block()) || outer.If.Block().Succs[1].Dominates(addCall.Block())) {
+							continue // a condition of the whole remaining function (not a way around the test)
+						}
+						if !(outer.True && skipOK[outer.Cond]) {
+							okSkip = false
+						}
+					}
+					after := false
+					for _, c := range an.CallsTo(pt, false, "(*client/txpool.OneTxToSend).Delete") {
+						seen := map[*ssa.BasicBlock]bool{}
+						var walk func(x *ssa.BasicBlock)
+						walk = func(x *ssa.BasicBlock) {
+							for _, sc := range x.Succs {
+								if sc == cc.If.Block() {
+									after = true
+								}
+								if !seen[sc] {
+									seen[sc] = true
+									walk(sc)
+								}
+							}
+						}
+						walk(c.Block())
+					}
+					if okSkip && !after {
+						okSelf = true
+					}
+				}
+			}
+		}
+	}
+	r.Check(okSelf, rule, "reject/spends-replaced", p.Pos(pt.Pos()), "a replacement that spends an output of a transaction it replaces is refused before anything is evicted", "nothing refuses a replacement one of whose inputs is an output of a pooled transaction that it evicts: the pool would keep a transaction with a dangling in-memory input")
 	// recorded fee and volume
 	okFee := false
 	an.Instrs(pt, func(i ssa.Instruction) {
